@@ -278,7 +278,7 @@ def sub_candidates(ctx, shard, n):
     wild = st.builds(lambda k, pos, ch: k[:pos % (len(k) + 1)] + ch + k[pos % (len(k) + 1):],
                      st.sampled_from(T.ALL_KEYS), st.integers(0, 3), st.characters())
     strat = st.text(max_size=4) | st.text(alphabet="ABCDEFGabcdefg#b", max_size=3) | edit | wild
-    ctx.given("candidate", check_candidate, strat, 1000 if ctx.quick else 12500)
+    ctx.given("candidate", check_candidate, strat, 1000 if ctx.quick else 40000)
 
 
 def sub_diatonic(ctx, shard, n):
